@@ -43,6 +43,10 @@ func (x *Exec) descT(q, r *Term) *Term {
 		d := tt.UF("desc$", "Bool", a, b)
 		// descendants of validator objects are validator objects
 		x.facts = append(x.facts, tt.Forall([]*Term{a, b}, tt.Implies(d, tt.Or(tt.Eq(a, b), tt.UF("isval$", "Bool", a))), []*Term{d}))
+		// the validator objects form a forest: the ancestors of an object form a chain
+		c := tt.Bound("c", "Int")
+		d1, d2 := tt.UF("desc$", "Bool", c, a), tt.UF("desc$", "Bool", c, b)
+		x.facts = append(x.facts, tt.Forall([]*Term{a, b, c}, tt.Implies(tt.And(d1, d2), tt.Or(tt.UF("desc$", "Bool", a, b), tt.UF("desc$", "Bool", b, a))), []*Term{d1, d2}))
 	}
 	return tt.UF("desc$", "Bool", q, r)
 }
@@ -70,6 +74,13 @@ func (x *Exec) keepCond(pre *State, name string, q *Term, recv *Term) *Term {
 			c = tt.And(c, tt.Not(x.descT(q, recv)))
 		}
 		return c
+	case name == "G$ready":
+		// a readiness flag survives a call only for objects unrelated to the callee's receiver
+		c := tt.Not(x.poolOrFresh(pre, q))
+		if recv != nil {
+			c = tt.And(c, tt.Not(x.descT(q, recv)), tt.Not(x.descT(recv, q)))
+		}
+		return c
 	case name == "G$owner":
 		// ownership of an existing array changes only if its owner may change it
 		o := x.ownerOf(pre, q)
@@ -88,7 +99,7 @@ func (x *Exec) keepCond(pre *State, name string, q *Term, recv *Term) *Term {
 		var alts []*Term
 		mk := func(b *Term) *Term {
 			c := tt.Not(x.poolOrFresh(pre, b))
-			if recv != nil && (x.isValidatorTypeName(tn) || len(embs) > 0) {
+			if recv != nil && x.isValidatorTypeName(tn) {
 				c = tt.And(c, tt.Not(x.descT(b, recv)))
 			}
 			return c
@@ -103,7 +114,7 @@ func (x *Exec) keepCond(pre *State, name string, q *Term, recv *Term) *Term {
 		o := x.ownerOf(pre, q)
 		existed := tt.Lt(tt.UF("birth$", "Int", q), pre.clk)
 		unowned := tt.And(tt.Eq(o, tt.IntLit(0)), tt.UF("isbase$", "Bool", q), existed)
-		owned := tt.And(tt.Not(tt.Eq(o, tt.IntLit(0))), tt.UF("isbase$", "Bool", q), tt.Not(x.poolOrFresh(pre, o)))
+		owned := tt.And(tt.Not(tt.Eq(o, tt.IntLit(0))), tt.UF("isbase$", "Bool", q), existed, tt.Not(x.poolOrFresh(pre, o)))
 		if recv != nil {
 			owned = tt.And(owned, tt.Not(x.descT(o, recv)))
 		}
@@ -153,7 +164,7 @@ func (x *Exec) effectHeaps(st *State) []string {
 	var out []string
 	for _, n := range x.allHeapNames(st) {
 		switch {
-		case n == "G$redeemed", n == "G$owner":
+		case n == "G$redeemed", n == "G$owner", n == "G$ready":
 			out = append(out, n)
 		case strings.HasPrefix(n, "H$"):
 			if x.isMutableTypeName(heapTypeName(n)) || x.pooledClosure()[heapTypeName(n)] || x.isUnframedHeap(n) {
@@ -311,16 +322,25 @@ func (x *Exec) noteChildLoad(parent, child *Term) {
 	x.childSeen[key] = true
 	nz := tt.Not(tt.Eq(child, tt.IntLit(0)))
 	// stored children are descendants; the forest of validator objects is acyclic
-	x.addFact(tt.Implies(nz, tt.And(x.descT(child, parent), tt.Or(tt.Eq(child, parent), tt.Not(x.descT(parent, child))))))
+	x.addPermFact(tt.Implies(nz, tt.And(x.descT(child, parent), tt.Or(tt.Eq(child, parent), tt.Not(x.descT(parent, child))))))
 	for _, sib := range x.childrenOf[parent.id] {
 		if sib != child {
-			x.addFact(tt.Implies(tt.And(nz, tt.Not(tt.Eq(sib, tt.IntLit(0))), tt.Not(tt.Eq(sib, child))), tt.And(tt.Not(x.descT(sib, child)), tt.Not(x.descT(child, sib)))))
+			x.addPermFact(tt.Implies(tt.And(nz, tt.Not(tt.Eq(sib, tt.IntLit(0))), tt.Not(tt.Eq(sib, child))), tt.And(tt.Not(x.descT(sib, child)), tt.Not(x.descT(child, sib)))))
 		}
 	}
 	x.childrenOf[parent.id] = append(x.childrenOf[parent.id], child)
-	// descendants of a child are descendants of the parent
+	// descendants of a child are descendants of the parent (stated over plain constants so that the trigger is a valid pattern)
+	ca, pa := child, parent
+	if ca.Kind != KSym {
+		ca = tt.Fresh("child", "Int")
+		x.addPermFact(tt.Eq(ca, child))
+	}
+	if pa.Kind != KSym {
+		pa = tt.Fresh("parent", "Int")
+		x.addPermFact(tt.Eq(pa, parent))
+	}
 	q := tt.Bound("q", "Int")
-	x.addFact(tt.Implies(nz, tt.Forall([]*Term{q}, tt.Implies(x.descT(q, child), x.descT(q, parent)), []*Term{x.descT(q, child)})))
+	x.addPermFact(tt.Implies(nz, tt.Forall([]*Term{q}, tt.Implies(x.descT(q, ca), x.descT(q, pa)), []*Term{x.descT(q, ca)})))
 }
 
 func (x *Exec) isValidatorPtrType(T types.Type) bool {
@@ -473,7 +493,7 @@ func (x *Exec) writeAllowed(fr *Frame, heap string, idx *Term) *Term {
 	}
 	if _, ok := x.heapSorts[heap]; ok && !isFx {
 		// (heap may have been created after entry)
-		if heap == "G$redeemed" || heap == "G$owner" || strings.HasPrefix(heap, "A$") || strings.HasPrefix(heap, "D$") || strings.HasPrefix(heap, "V$") ||
+		if heap == "G$redeemed" || heap == "G$owner" || heap == "G$ready" || strings.HasPrefix(heap, "A$") || strings.HasPrefix(heap, "D$") || strings.HasPrefix(heap, "V$") ||
 			(strings.HasPrefix(heap, "H$") && (x.isMutableTypeName(heapTypeName(heap)) || x.pooledClosure()[heapTypeName(heap)])) {
 			isFx = true
 		}
@@ -559,13 +579,29 @@ func (x *Exec) checkCallEffects(fr *Frame, st, pre *State, recv *Term, key strin
 	top := x.topFrame
 	tt := x.tt
 	myRecv := x.recvTerm(top)
-	kinds := []struct{ name, heap string }{{"objects", "G$redeemed"}, {"validator-objects", "H$typeValidator$Path"}, {"arrays", "A$error"}}
+	kinds := []struct{ name, heap string }{{"objects", "G$redeemed"}, {"validator-objects", "H$typeValidator$Path"}, {"arrays", "A$error"}, {"readiness", "G$ready"}}
+	if x.pooledClosure()["spec.SchemaProps"] {
+		kinds = append(kinds, struct{ name, heap string }{"pooled-embedded", "H$spec.SchemaProps$Type"})
+	}
 	for _, k := range kinds {
 		q := tt.Bound("q", "Int")
 		hyp := x.frameSoFar(top, pre, q)
 		if k.name == "arrays" {
 			// the owner of the array matters too
 			hyp = tt.And(hyp, x.frameSoFar(top, pre, x.ownerOf(top.entry, q)), x.frameSoFar(top, pre, x.ownerOf(pre, q)))
+			for _, fa := range x.arrayEmbedders() {
+				hyp = tt.And(hyp, x.frameSoFar(top, pre, tt.UF("inv$"+fa, "Int", q)))
+			}
+		}
+		for _, fa := range x.embeddersOfAny(k.heap) {
+			hyp = tt.And(hyp, x.frameSoFar(top, pre, tt.UF("inv$"+fa, "Int", q)))
+		}
+		if strings.HasPrefix(k.heap, "H$") && !x.isValidatorTypeName(heapTypeName(k.heap)) {
+			// cells of this heap belong to objects that are not validator objects
+			hyp = tt.And(hyp, tt.Not(tt.UF("isval$", "Bool", q)))
+			for _, fa := range x.embeddersOfAny(k.heap) {
+				hyp = tt.And(hyp, tt.Not(tt.UF("isval$", "Bool", tt.UF("inv$"+fa, "Int", q))))
+			}
 		}
 		g := tt.Forall([]*Term{q}, tt.Implies(tt.And(hyp, x.keepCond(top.entry, k.heap, q, myRecv)), x.keepCond(pre, k.heap, q, recv)))
 		x.obligeNoAssume(fr, st, "call-effects", shortKey(key)+":"+k.name+"|"+x.lineAnchor(x.curPos), x.effectTags(), g, "callee "+key+" stays within this function's own validation-effects discipline ("+k.name+")")
@@ -582,4 +618,49 @@ func (x *Exec) isUnframedHeap(h string) bool {
 		return false
 	}
 	return x.prog.Cons.UnframedTypes[heapTypeName(h)]
+}
+
+// restoreSelf: inside a method of a validator object `me`, a call with validation effects on something else does not
+// touch me's own cells provided me is live and not a descendant of the callee's receiver. That proviso is an
+// obligation at the call site; the cells are then restored syntactically (so that later reads of me's fields and
+// slots yield the very same terms as before the call).
+func (x *Exec) restoreSelf(fr *Frame, st, pre *State, recv *Term, key string) {
+	if x.topFrame == nil || x.quiet && false {
+		return
+	}
+	me := x.recvTerm(x.topFrame)
+	if me == nil || me == recv {
+		return
+	}
+	tt := x.tt
+	g := tt.Not(x.poolOrFresh(pre, me))
+	if recv != nil {
+		g = tt.And(g, tt.Not(x.descT(me, recv)))
+	}
+	if !x.quiet {
+		x.oblige(fr, &State{pc: st.pc}, "self-stable", shortKey(key)+"|"+x.lineAnchor(x.curPos), []string{"C04", "C05", "C08", "C11"}, g, "the running validator is live and not a descendant of the object it calls ("+key+")")
+	}
+	myType := typeName(x.topFrame.fn.Params[0].Type().Underlying().(*types.Pointer).Elem())
+	for _, n := range x.effectHeaps(st) {
+		cur, ok := st.heaps[n]
+		if !ok || !(cur.Kind == KApp && strings.HasPrefix(cur.Op, "mix$")) {
+			continue
+		}
+		old := cur.Args[0]
+		switch {
+		case n == "G$redeemed":
+			st.heaps[n] = tt.Store(cur, me, tt.Select(old, me))
+		case strings.HasPrefix(n, "H$") && heapTypeName(n) == myType:
+			st.heaps[n] = tt.Store(cur, me, tt.Select(old, me))
+		case strings.HasPrefix(n, "A$"):
+			h := cur
+			for _, fa := range x.arrayEmbedders() {
+				if strings.HasPrefix(fa, "fa$"+myType+"$") {
+					addr := tt.UF(fa, "Int", me)
+					h = tt.Store(h, addr, tt.Select(old, addr))
+				}
+			}
+			st.heaps[n] = h
+		}
+	}
 }
